@@ -4,6 +4,7 @@ CONSTANTS
   Kinds <- KindsN
   MaxT = 1
   Variant = "pec_table"
+  Srcs = "few"
 INVARIANT TypeOK
 INVARIANT PermInv
 INVARIANT PermBijective
